@@ -124,8 +124,12 @@ def shape(q):
         return "%s(%s)" % (op, ",".join(shape(k) for k in q["kids"]))
     if op in ("andnot", "andmaybe", "require"):
         return "%s(%s,%s)" % (op, shape(q["a"]), shape(q["b"]))
-    if op in ("not", "const"):
+    if op in ("not", "const", "spanfirst"):
         return "%s(%s)" % (op, shape(q["q"]))
+    if op in ("spanor", "spannear2"):
+        return "%s(%s)" % (op, ",".join(shape(k) for k in q["kids"]))
+    if op.startswith("span"):
+        return "%s(%s,%s)" % (op, shape(q["a"]), shape(q["b"]))
     return op
 
 
